@@ -17,6 +17,10 @@ CONSTANTS
   Cap = 3
   Wins = {2, 3}
   OwnStorage = FALSE
+  Forms = {"ln"}
+  Shapes = {"plain"}
+  WholeMsg = TRUE
+  SignedCid = TRUE
   Sink <- KeepAll
 INVARIANTS OperandsUntouched
 CHECK_DEADLOCK FALSE
